@@ -23,9 +23,11 @@ Fixpoint insert (x : N) (l : list N) : list N :=
 Definition sort_set (l : list N) : list N := fold_right insert [] l.
 
 (* ---------- layout of the project ---------- *)
-(* Clients are top-level packages.  The core package has [core_depth] dotted components
-   ("core" = 1, "shared.core" = 2, "a.b.core" = 3 ...); [core_inside_client = Some c] when its first
-   component is the client package c (e.g. "c1.core"), so that directory c contains the core. *)
+(* A client is identified by its dotted output package name (the registry key), one to three
+   components deep; no client package lies inside another.  The core package has [core_depth]
+   dotted components ("core" = 1, "shared.core" / "clients.core" = 2, "a.b.core" = 3 ...);
+   [core_inside_client = Some c] when the core package's leading components are the client
+   package c (e.g. "c1.core", "clients.alpha.core"), so that c's directory contains the core. *)
 Record layout := { core_depth : nat; core_inside_client : option str }.
 
 (* _is_shared_core:  parent_dir == project_root or parent_dir.parent == project_root,
